@@ -80,11 +80,11 @@ pub fn parts<'a>(cli: &'a Cli) -> Option<(Vec<Part<'a>>, &'static str, Vec<&'sta
             Some((parts, "part sock-threads: 2-5 pipelined requests over real sockets, every request handled on its own OS thread (respond with sizes around the 1 KiB write buffer / raw writer in parts / drop), the threads enter their answer in a generated permutation; oracle: one message per request in request order on the client side; non-trivial: the permutation has an inversion", sock_assumptions))
         }
         "C09" => {
-            parts.push(make_part("sock", "CONV/sock", cli.cases(5_000, 300_000), move || gen::c09_strategy(max_len, gen::transport_strategy()), SockWorker::new, |w, c| {
+            parts.push(make_part("sock", "CONV/sock", cli.cases(5_000, 300_000), move || gen::c09_strategy_p(max_len, gen::transport_strategy(), true), SockWorker::new, |w, c| {
                 let (exp, obs, nonce) = run_case(w, c);
                 c09_oracle(c, &exp, &obs, &nonce)
             }));
-            Some((parts, "cases: 1-3 requests with bodies (Content-Length <= 1024 buffered, > 1024 streamed, chunked with generated chunking) each with a generated consumption (none / 1 byte / half / len-1 / exactly len without seeing EOF / to EOF / as_reader only) and finish (respond / drop / raw writer), always followed by a sentinel; oracle: delivered sequence and heads = sent, one response per request, no 400; non-trivial: some body is left (partly) unread and a follower exists", sock_assumptions))
+            Some((parts, "cases: 1-3 requests with bodies (Content-Length <= 1024 buffered, > 1024 streamed, chunked with generated chunking) each with a generated consumption (none / 1 byte / half / len-1 / exactly len without seeing EOF / to EOF / as_reader only) and finish (respond / drop / raw writer / panicking handler thread), always followed by a sentinel; oracle: delivered sequence and heads = sent, one response per request, no 400; non-trivial: some body is left (partly) unread and a follower exists", sock_assumptions))
         }
         "C10" => {
             parts.push(make_part("sock", "CONV/sock", cli.cases(3_000, 200_000), || gen::c10_strategy(gen::transport_strategy()), SockWorker::new, |w, c| {
